@@ -107,6 +107,8 @@ def build_enum(meta, members, style="meta", name="DrawnEnum"):
         try:
             base(3)
             base(0)
+            for _mname, ordinal in members:
+                base(ordinal)      # the base has seen (and not recognised) every ordinal the subclass declares
         except Exception:  # noqa: BLE001 - the base is only scenery here
             pass
         ns = meta.__prepare__(name, (base,))
@@ -295,6 +297,22 @@ def check_declaration(meta, case):
     """Build the enum of a 'seq' or 'sweep' case and run the oracle over its values."""
     meta = _fresh_meta(meta)
     members = case["members"]
+    # enum classes come and go (reloaded modules, class factories): a few short-lived enums with OTHER
+    # ordinals are created, used and collected first, so that anything keyed by the identity of a dead class
+    # has a chance to be found by the class under test
+    import gc
+    for k in range(3 if case.get("churn") else 0):
+        try:
+            tmp = build_enum(meta, [["Gone", 424242 + k], ["Also", 7 + k]], "meta", name="DrawnEnum")
+            tmp(424242 + k)
+            tmp(5)
+            for _n, o in members:
+                tmp(o)
+        except Exception:  # noqa: BLE001
+            pass
+        tmp = None
+    if case.get("churn"):
+        gc.collect()
     try:
         E = build_enum(meta, members, case.get("style", "meta"))
     except HarnessError:
@@ -438,7 +456,8 @@ def _resolve(raw):
             values.append(others[(sel - 16) % len(others)])
         else:
             values.append(BOUNDS[sel - 16])
-    return {"kind": "seq", "style": style, "members": members, "values": values}
+    return {"kind": "seq", "style": style, "members": members, "values": values,
+            "churn": sum(a + b + c) % 16 == 0}
 
 
 def seq_cases():
